@@ -22,7 +22,7 @@ from vlib.core import enc_str, enc_bool, enc_opt
 
 HEADER = """From Coq Require Import List NArith Bool String.
 Import ListNotations.
-Require Import RV.Lib.PyStr RV.Model.Path.
+Require Import RV.Lib.PyStr RV.Model.Path RV.Model.Shell.
 Open Scope N_scope.
 Definition eq_os (a b : option pystr) := match a, b with Some x, Some y => eqs x y | None, None => true | _, _ => false end.
 """
@@ -143,6 +143,22 @@ def run(ctx):
     suites.append(("ptf", "(fun sp => match path_to_filesystem (str \"R\") sp with Some f => Some (skipn 1 f) | None => None end)",
                    ptf_cases, enc_str, enc_opt(enc_str), "eq_os"))
     suites.append(("token", "check_token_name", [(t, bool(tok(t))) for t in toks], enc_str, enc_bool, "Bool.eqb"))
+    # shlex.quote model vs CPython, and the sh lexer model vs the real /bin/sh on quoted strings
+    import shlex
+    import subprocess
+    shell_alpha = ["a", "'", '"', " ", "$", "`", "\\", ";", "|", "&", "(", "*", "~", "-", "=", "\n", "é", "%", "!", "#", "{", "<"]
+    qs = ["".join(t) for n in range(0, 3) for t in itertools.product(shell_alpha, repeat=n)]
+    qs += ["".join(ctx.rng.choice(shell_alpha + ["x", "y", "/", "."]) for _ in range(ctx.rng.randrange(3, 12))) for _ in range(ctx.n(400, 5000))]
+    suites.append(("shquote", "shlex_quote", [(q, shlex.quote(q)) for q in qs], enc_str, enc_str, "eqs"))
+    sample = [q for q in qs if "\x00" not in q][:ctx.n(300, 3000)]
+    script = "".join("printf '%%s\\0' %s %s\n" % (shlex.quote(a), shlex.quote(b)) for a, b in zip(sample, reversed(sample)))
+    out = subprocess.run(["sh"], input=script.encode("utf-8", "surrogateescape"), stdout=subprocess.PIPE).stdout.split(b"\0")[:-1]
+    want = [x.encode("utf-8", "surrogateescape") for pair in zip(sample, reversed(sample)) for x in pair]
+    ctx.count("cases:sh-real", len(sample))
+    if out != want:
+        k = next((i for i, (a, b) in enumerate(zip(out, want)) if a != b), min(len(out), len(want)))
+        ctx.violation("the shell does not read shlex.quote(s) back as s", dict(function="shlex.quote via /bin/sh", input=repr(want[k] if k < len(want) else None),
+                                                                              got=repr(out[k] if k < len(out) else None)))
     strip_cases = [pathutils.sanitize_path(s) for s in allstr[:3000]]
     suites.append(("strip", "strip_path", [(s, pathutils.strip_path(s)) for s in strip_cases], enc_str, enc_str, "eqs"))
 
